@@ -1243,3 +1243,151 @@ func ruleParseContextFresh(r *Run) {
 	}
 	r.Count("parse_contexts_handed_to_goldmark", n)
 }
+
+// ---------------------------------------------------------------------------
+// R-INDEX-RANGE-EXACT (C08): removal by element index succeeds for EVERY in-range index.  In an
+// exported Document method that splices Body.Elements at its integer parameter, each comparison
+// of that parameter that can lead to the failure return compares it with the constant 0 or with
+// len(Body.Elements) itself — not with an adjusted count (len-1 when some element kind is present,
+// a cached length, …): an adjusted bound rejects an existing element or admits a missing one.
+// ---------------------------------------------------------------------------
+
+func ruleIndexRangeExact(r *Run) {
+	p := r.P
+	n := 0
+	for _, fn := range p.exportedAPI(pkgDoc) {
+		if fn.Signature.Recv() == nil || !typeIs(fn.Signature.Recv().Type(), pkgDoc, "Document") {
+			continue
+		}
+		pi := removesAtParam(p, fn, 0)
+		if pi < 0 || pi >= len(fn.Params) {
+			continue
+		}
+		par := fn.Params[pi]
+		n++
+		bad := ""
+		var badPos token.Pos
+		allInstrs(fn, func(in ssa.Instruction) {
+			cmp, ok := in.(*ssa.BinOp)
+			if !ok {
+				return
+			}
+			switch cmp.Op {
+			case token.LSS, token.LEQ, token.GTR, token.GEQ:
+			default:
+				return
+			}
+			var other ssa.Value
+			if cmp.X == ssa.Value(par) {
+				other = cmp.Y
+			} else if cmp.Y == ssa.Value(par) {
+				other = cmp.X
+			} else {
+				return
+			}
+			if _, isC := other.(*ssa.Const); isC {
+				return
+			}
+			if c, ok := other.(*ssa.Call); ok {
+				if b, ok := c.Call.Value.(*ssa.Builtin); ok && b.Name() == "len" && isBodyElements(p, c.Call.Args[0]) {
+					return
+				}
+			}
+			bad = fmt.Sprintf("the index is compared with %s at %s", describeVal(other), p.pos(cmp.Pos()))
+			badPos = cmp.Pos()
+		})
+		pos := fn.Pos()
+		if bad != "" {
+			pos = badPos
+		}
+		r.Check("index-range-exact", shortName(fn), pos, bad == "",
+			fmt.Sprintf("%s removes the body element at its index argument: %s", shortName(fn),
+				map[bool]string{true: "the range test compares the index with 0 and len(Body.Elements) only", false: bad + ", not with len(Body.Elements) itself — for some history an existing element's index is rejected (nothing is removed although the target exists) or a non-existent one is admitted"}[bad == ""]))
+	}
+	r.Min("remove_by_element_index_entry_points", n, 1)
+}
+
+func describeVal(v ssa.Value) string {
+	switch x := v.(type) {
+	case *ssa.Phi:
+		return "a value that differs between paths (" + x.Comment + ")"
+	case *ssa.BinOp:
+		return "a computed value (" + x.Op.String() + ")"
+	case *ssa.Call:
+		return "the result of " + calleeName(x)
+	}
+	return v.Name()
+}
+
+// ---------------------------------------------------------------------------
+// R-DELETE-CONTENT-PURE (C09): deleting rows or columns never rewrites the content of a cell that
+// stays.  In the exported Delete* operations of Table (with the unexported helpers they reach) no
+// store goes to TableCell.Paragraphs / TableCell.Tables of a cell reached from the receiver; only
+// the row list and the rows' cell lists change.
+// ---------------------------------------------------------------------------
+
+func ruleDeleteContentPure(r *Run) {
+	p := r.P
+	n := 0
+	for _, fn := range p.exportedAPI(pkgDoc) {
+		if fn.Signature.Recv() == nil || !typeIs(fn.Signature.Recv().Type(), pkgDoc, "Table") || !strings.HasPrefix(fn.Name(), "Delete") {
+			continue
+		}
+		n++
+		group := []*ssa.Function{fn}
+		for _, g := range sortedFuncs(p.staticReach(fn)) {
+			if g != fn && g.Pkg != nil && g.Pkg.Pkg.Path() == pkgDoc && (g.Object() == nil || !g.Object().Exported()) {
+				group = append(group, g)
+			}
+		}
+		var bad *ssa.Store
+		badFn := ""
+		for _, g := range group {
+			allInstrs(g, func(in ssa.Instruction) {
+				st, ok := in.(*ssa.Store)
+				if !ok {
+					return
+				}
+				fv, _ := fieldOfAddr(st.Addr)
+				if !fieldIs(p, fv, pkgDoc, "TableCell", "Paragraphs") && !fieldIs(p, fv, pkgDoc, "TableCell", "Tables") {
+					return
+				}
+				_, root := addrChain(st.Addr)
+				if _, fresh := stripLoads(root).(*ssa.Alloc); fresh {
+					if al := stripLoads(root).(*ssa.Alloc); al.Heap || true {
+						// a cell being built locally (not one of the table's)
+						if !allocHoldsReceiverCell(al) {
+							return
+						}
+					}
+				}
+				bad, badFn = st, shortName(g)
+			})
+		}
+		pos := fn.Pos()
+		if bad != nil {
+			pos = bad.Pos()
+		}
+		r.Check("delete-content-pure", shortName(fn), pos, bad == nil,
+			fmt.Sprintf("%s removes rows/columns: %s", shortName(fn),
+				map[bool]string{true: "it never stores into the content of a remaining cell", false: "it stores into the paragraphs/nested tables of a cell that remains (in " + badFn + ") — content that was not the target of the edit is replaced"}[bad == nil]))
+	}
+	r.Min("table_delete_operations", n, 3)
+}
+
+// allocHoldsReceiverCell: a local variable that only ever holds a pointer INTO the table
+// (cell := &t.Rows[i].Cells[j]) is not a fresh cell.
+func allocHoldsReceiverCell(al *ssa.Alloc) bool {
+	if al.Referrers() == nil {
+		return false
+	}
+	for _, u := range *al.Referrers() {
+		if st, ok := u.(*ssa.Store); ok && st.Addr == ssa.Value(al) {
+			switch st.Val.(type) {
+			case *ssa.IndexAddr, *ssa.FieldAddr:
+				return true
+			}
+		}
+	}
+	return false
+}
